@@ -81,7 +81,7 @@ type World struct {
 	defs   DefSet // what the harness installed last (by reload steps)
 	defsIx int
 	store  store.DataStore
-	mem    *memStore
+	mem    *recStore
 	out    taskctl.OutputStore
 	srv    http.Handler
 	dir    string
@@ -90,6 +90,8 @@ type World struct {
 	shutdownBegun    int // step at which Shutdown.begin was released (0 = not)
 	shutdownReturned int
 	failNextSave     bool
+	signalled        bool // the runner context was cancelled (the binary received SIGINT/SIGTERM): the persist loop stops
+	failRemove       int // k > 0: the k-th log removal of the save being released fails
 
 	stubsMu sync.Mutex
 	stubs   map[string][]*stub
@@ -257,16 +259,25 @@ func sortedMap(m map[string]string) string {
 }
 
 // ---------------------------------------------------------------------------
-// in-memory DataStore with a park point and fault injection
+// recStore: the DataStore handed to the runner. It records every snapshot handed
+// to Save and which saves completed, and either keeps the data in memory (with a
+// park point and fault injection of its own) or delegates to the real
+// store.JsonDataStore (whose hook points then provide the yields and faults).
 
-type memStore struct {
-	world *World
-	core  *Core
-	// written by the saving goroutine after its park was released (physically serialised)
-	saved     []*store.PersistedData // every snapshot successfully saved, oldest first
-	attempts  int
+type handedSave struct {
+	Data *store.PersistedData
+	Step int  // step in which SaveToStore built the snapshot
+	Done bool // Save returned
+	OK   bool // ... without error
+}
+
+type recStore struct {
+	world     *World
+	core      *Core
+	inner     *store.JsonDataStore
 	initial   *store.PersistedData
-	parkSaves bool
+	handed    []*handedSave
+	completed []int // indexes into handed, in order of successful completion
 }
 
 const (
@@ -274,7 +285,10 @@ const (
 	saveFail = relOutcomeBase + 9
 )
 
-func (m *memStore) Load() (*store.PersistedData, error) {
+func (m *recStore) Load() (*store.PersistedData, error) {
+	if m.inner != nil {
+		return m.inner.Load()
+	}
 	if m.initial != nil {
 		return roundTrip(m.initial)
 	}
@@ -282,26 +296,34 @@ func (m *memStore) Load() (*store.PersistedData, error) {
 }
 
 //go:norace
-func (m *memStore) Save(d *store.PersistedData) error {
-	code := saveOK
-	if m.parkSaves {
-		code = m.core.park("store.save", "store.save", m.world, lkNone)
+func (m *recStore) Save(d *store.PersistedData) error {
+	h := &handedSave{Data: d, Step: m.world.run.curStep() + 1}
+	idx := len(m.handed)
+	m.handed = append(m.handed, h)
+	var err error
+	if m.inner != nil {
+		err = m.inner.Save(d)
+	} else if m.core.park("store.save", "store.save", m.world, lkNone) == saveFail {
+		err = errors.New("simulated ENOSPC")
 	}
-	m.attempts++
-	if code == saveFail {
-		return errors.New("simulated ENOSPC")
+	h.Done = true
+	if err == nil {
+		h.OK = true
+		m.completed = append(m.completed, idx)
 	}
-	m.saved = append(m.saved, d)
-	return nil
+	return err
 }
 
 //go:norace
-func (m *memStore) last() *store.PersistedData {
-	if len(m.saved) == 0 {
+func (m *recStore) last() *store.PersistedData {
+	if len(m.completed) == 0 {
 		return nil
 	}
-	return m.saved[len(m.saved)-1]
+	return m.handed[m.completed[len(m.completed)-1]].Data
 }
+
+//go:norace
+func (m *recStore) counts() (handed, completed int) { return len(m.handed), len(m.completed) }
 
 // ---------------------------------------------------------------------------
 // canonical names (DESIGN §2.2). Computed on the parking goroutine from the
@@ -368,7 +390,7 @@ func (run *Run) newWorldIn(dir string, initial *store.PersistedData, defs DefSet
 	cfg := run.sc.Cfg
 	switch cfg.Store {
 	case "mem":
-		w.mem = &memStore{world: w, core: run.core, initial: initial, parkSaves: true}
+		w.mem = &recStore{world: w, core: run.core, initial: initial}
 		w.store = w.mem
 	case "json":
 		if w.dir == "" {
@@ -383,7 +405,8 @@ func (run *Run) newWorldIn(dir string, initial *store.PersistedData, defs DefSet
 			return nil, err
 		}
 		run.storeOwner[js] = w
-		w.store = js
+		w.mem = &recStore{world: w, core: run.core, inner: js}
+		w.store = w.mem
 	}
 	if cfg.Logs {
 		if w.dir == "" {
@@ -471,11 +494,21 @@ func (o *outStore) Remove(jobID string) error {
 	if o.world.run.sc.Cfg.Readers {
 		o.core.park("out.remove", "out.remove", o.world, lkHoldR)
 	}
+	if o.world.failRemove > 0 && !o.world.isDead() {
+		// the driver drew, when it released this save, which of its removals fails
+		o.world.failRemove--
+		if o.world.failRemove == 0 {
+			o.core.emit(Event{Kind: "log-remove-failed", World: o.world.id, Job: name, At: -1})
+			return errors.New("simulated EIO")
+		}
+	}
 	if o.inner == nil {
 		return nil
 	}
 	return o.inner.Remove(jobID)
 }
+
+func uuidFromString(s string) (uuid.UUID, error) { return uuid.FromString(s) }
 
 type nopWC struct{}
 
